@@ -3,6 +3,7 @@ CONSTANTS
  Variants <- HVariants
  NBk = 3
  Inits <- HInits
+ RouteInits <- HInits
  Runs = 2
  QueuePersists = TRUE
  Crash1 <- HCrash1
@@ -15,6 +16,7 @@ CONSTANTS
  DevSeqOpenEarly = FALSE
  DevLinkDirect = FALSE
  DevBackupCount = FALSE
+ DevRouteDiscard = FALSE
 INVARIANT HistoryClean
 INVARIANT NoLoss
 INVARIANT BackupResolves
